@@ -102,6 +102,8 @@ var c06Reqs = []c06Req{
 	{"frag-twice-1", `{ p: a { ...F } q: a { ...F name } } fragment F on A { id aOnly }`, "", nil, nil},
 	{"frag-twice-2", `{ p: a { ...F } q: a { name } } fragment F on A { id aOnly }`, "", nil, nil},
 	{"frag-twice-3", `{ p: a { ...F } q: a { ...F @skip(if:true) name } } fragment F on A { id aOnly }`, "", nil, nil},
+	// resolver-less fields with literal arguments seen (and mutated) by a FieldResolver source
+	{"fieldresolver-args", `{ plainFR { echoArg(x:5, y:2) e2: echoArg n } }`, "", nil, nil},
 	// F8 repeated fields
 	{"rep-equal-lit", `{ echo(i:1) echo(i:1) }`, "", nil, nil},
 	{"rep-equal-lit-nested", `{ a { name(up:true) } a { name(up:true) } }`, "", nil, nil},
